@@ -684,6 +684,12 @@ mod builtins {
         }
     }
 
+    /// Is this an optional sign followed by nothing but ASCII digits?
+    fn is_integer_literal(s: &str) -> bool {
+        let digits = s.strip_prefix(['+', '-']).unwrap_or(s);
+        !digits.is_empty() && digits.bytes().all(|b| b.is_ascii_digit())
+    }
+
     /// Converts a value into an integer.
     ///
     /// ```jinja
@@ -705,6 +711,13 @@ mod builtins {
                 let s = value.as_str().unwrap();
                 if let Ok(i) = s.parse::<i128>() {
                     Ok(Value::from(i))
+                } else if is_integer_literal(s) {
+                    // an integer that does not fit is out of range, it must not come
+                    // back as the neighbour its float approximation truncates to.
+                    Err(Error::new(
+                        ErrorKind::InvalidOperation,
+                        format!("cannot convert {s} to integer: out of range"),
+                    ))
                 } else {
                     match s.parse::<f64>() {
                         Ok(f) => f64_to_int(f),
